@@ -1,5 +1,6 @@
 """C08 - calibration, enumeration and boolean derivation follow XTCE; raw value kept."""
 import itertools
+import json
 
 from harness import calib, crit, tables
 from harness.calib import rat
@@ -175,7 +176,8 @@ def run(ctx):
                 "overlapping criteria (precedence, fall-through to default / raw, self-reference, boolean expressions); enum / bool "
                 "over calibrated encodings; time types; and (B) random calibrator sets. Each case is decoded by the real "
                 "ParameterType.parse_value built through constructors and through XML (explicit / omitted defaults) and compared "
-                "by Trace_Calib (value, class, raw_value, error kind). distinct = (type, environment, raw, route).")
+                "by Trace_Calib (value, class, raw_value, error kind). One type object per (type, route) decodes all its cases, in "
+                "shuffled order (history independence). distinct = (type, environment, raw, route).")
     ctx.assumptions = ["coefficients, knots and raw values are dyadic with small magnitude so both IEEE double arithmetic and the "
                        "32-bit rational arithmetic of the specification are exact; general decimal coefficients are outside the oracle",
                        "a failing calibrator on an enumerated / boolean encoding is unspecified (any outcome accepted)"]
@@ -184,13 +186,22 @@ def run(ctx):
     rng = ctx.rng
     rcases = [rand_case(rng) for _ in range(6000 if q else 60000)]
     lines = []
-    for i, c in enumerate(cases + rcases):
+    shared, hist = {}, {}
+    order = list(enumerate(cases + rcases))
+    # the enumerations list a type's raw values in ascending order; a deterministic shuffle of the enumerated block makes one type
+    # object see them in no particular order (what it decoded before must not matter)
+    head = order[:len(cases)]
+    rng.shuffle(head)
+    order[:len(cases)] = head
+    for i, c in order:
         routes = [("ctor", False), ("xml", False), ("xml", True)]
         if q or i >= len(cases):
             routes = [routes[i % 3]]
         for via, od in routes:
-            obs = calib.observe(c["pt"], c["env"], c["raw"], via, od)
-            lines.append(dict(c, obs=obs, via=via + ("-defaults-omitted" if od else ""), src="A" if i < len(cases) else "B"))
+            obs = calib.observe(c["pt"], c["env"], c["raw"], via, od, shared=shared)
+            h = hist.setdefault((json.dumps(c["pt"], sort_keys=True), via, od), [])
+            lines.append(dict(c, obs=obs, via=via + ("-defaults-omitted" if od else ""), src="A" if i < len(cases) else "B", nprev=len(h)))
+            h.append(len(lines) - 1)
     for ln in lines:
         ctx.count((ln["src"], ln["via"], repr(ln["pt"]), repr(ln["env"]), repr(ln["raw"])))
     rej = tables.validate_lines(ctx, "Trace_Calib", lines, "calib", jobs=16)
@@ -199,8 +210,16 @@ def run(ctx):
         pt = ln["pt"]
         ck = pt["cal"]["default"]["k"] if not pt["cal"]["context"] else "context"
         sig = f"C08/{pt['kind']}/{ck}/{clause[0]}/{ln['obs']['k']}"
-        ctx.violation(sig, f"type {pt} raw {ln['raw']} env {ln['env']} via {ln['via']}: real {ln['obs']}, specification {clause[1][:300]}",
-                      {k: ln[k] for k in ("pt", "env", "raw", "via")})
+        payload = {k: ln[k] for k in ("pt", "env", "raw", "via")}
+        if ln["nprev"]:
+            via, od = ln["via"].split("-")[0], "omitted" in ln["via"]
+            if calib.observe(pt, ln["env"], ln["raw"], via, od) != ln["obs"]:
+                sig += "/depends-on-earlier-packets"
+                h = hist[(json.dumps(pt, sort_keys=True), via, od)]
+                payload["history"] = [{k: lines[j][k] for k in ("env", "raw")} for j in h[:h.index(idx)]][-40:]
+        ctx.violation(sig, f"type {pt} raw {ln['raw']} env {ln['env']} via {ln['via']}"
+                      f"{' (same type object, after ' + str(ln['nprev']) + ' earlier cases)' if ln['nprev'] else ''}: real {ln['obs']}, "
+                      f"specification {clause[1][:300]}", payload)
     ctx.exhaustive = True
     ctx.extra["lines"] = len(lines)
     ctx.extra["obs_counts"] = {}
@@ -217,7 +236,10 @@ def run(ctx):
 
 def replay(ctx, obj):
     via = obj.get("via", "ctor")
-    obs = calib.observe(obj["pt"], obj["env"], obj["raw"], via.split("-")[0], "omitted" in via)
+    shared = {}
+    for h in obj.get("history", []):
+        calib.observe(obj["pt"], h["env"], h["raw"], via.split("-")[0], "omitted" in via, shared=shared)
+    obs = calib.observe(obj["pt"], obj["env"], obj["raw"], via.split("-")[0], "omitted" in via, shared=shared)
     ln = dict(obj, obs=obs)
     rej = tables.validate_lines(ctx, "Trace_Calib", [ln], "replay", jobs=1)
     print("observed:", obs, "rejected:", rej)
